@@ -266,9 +266,15 @@ impl<S: AfcState> Client<S> {
                 .ok_or(HeaderError::InvalidSize)?;
             let DataHeader { seq, .. } = DataHeader::try_parse(header)?;
 
+            // Missing an authentication tag, so by definition
+            // we cannot authenticate the ciphertext.
+            let tag_start = rest
+                .len()
+                .checked_sub(Self::TAG_SIZE)
+                .ok_or(Error::Authentication)?;
             #[allow(clippy::incompatible_msrv)] // clippy#12280
             let (ciphertext, tag) = rest
-                .split_at_mut_checked(rest.len() - Self::TAG_SIZE)
+                .split_at_mut_checked(tag_start)
                 // Missing an authentication tag, so by
                 // definition we cannot authenticate the
                 // ciphertext.
